@@ -261,9 +261,15 @@ VARIANTS = {
 }
 
 # rules of other properties that share code with a property (run in the thorough tier)
+# Rules of *other* properties that are necessary conditions of a property (assume/guarantee imports).  They are evaluated
+# in every tier and reported as "<pid><-<rule>": e.g. an observable estimator can only equal <O> in the model's state if the
+# distribution that is sampled (probability) is the one psi / rho define (C01.R1-R3, C02).
 NEIGHBOURS = {
-    "C06": [("c03", "C03.R2")],
-    "C13": [("c08", "C08.R1")],
-    "C17": [("c11", "C11.R1")],
-    "C18": [("c17", "C17.R2")],
+    "C06": [("c03", ("C03.R2",))],                                   # gradient layout = parameter registration order
+    "C08": [("c01", ("C01.R1", "C01.R2", "C01.R3")), ("c02", ("C02.R",))],  # sampled distribution = |psi|^2 / diag(rho); rho well-formed
+    "C09": [("c01", ("C01.R1", "C01.R2", "C01.R3")), ("c02", ("C02.R",))],
+    "C10": [("c01", ("C01.R1", "C01.R2", "C01.R3", "C01.R5")), ("c02", ("C02.R",))],  # + Z = sum of probabilities
+    "C13": [("c08", ("C08.R1",))],                                   # estimators leave the chain state alone
+    "C17": [("c11", ("C11.R1",))],
+    "C18": [("c17", ("C17.R2",))],
 }
